@@ -4,11 +4,18 @@ import gen
 
 def setup(register, COMMON_TB):
     register(
-        "C03", coq="C03", coq_extra=["gen", "ngx"], pkg="./internal/mode/static/", test="TestVerifC03", gen=gen.gen_directives,
+        "C03", coq="C03", coq_extra=["gen", "ngx"], pkg="./internal/mode/static/", test="TestVerifC03", gen=gen.gen_c03,
+        extra=[dict(pkg="./internal/mode/static/", test="TestVerifTmpl")],
         rule="generated admissible cluster states (as C02) with names rewritten into admissible extremes (dots, double hyphens, 50/200-character "
              "suffixes), OSS and Plus; the real handler/graph/configuration/generator output plus the static nginx.conf and include files is "
-             "checked by ngx/Wf.v inside Coq; non-trivial = generated http.conf over 2.5 kB; distinct = distinct (state, plus)",
+             "checked by ngx/Wf.v inside Coq; non-trivial = generated http.conf over 2.5 kB; distinct = distinct (state, plus)"
+             " Second part (templates, evaluated by ngx/TmplCheck.v): every execution of every text/template of the generator inside the real pipeline is recorded (wrapper installed around the package variables); the model of the template engine (ngx/Tmpl.v) is run on the parse tree regenerated from the source (gen/Templates.v) and on the data obtained by reflection, and must reproduce the text byte for byte; user-controlled string leaves are holes (marked: the marker-carrying benign value of every leaf; spaced: one leaf followed by a space and a word; states: generated states, every plain string leaf of unnamed type that no template constant equals); the symbolic tokenizer run over the chunks must not hit a lexical error, a hole that needs quoting outside quotes, a hole in directive-name position, or an unfinished token",
         trusted_base=COMMON_TB + [
+            "ngx/Tmpl.v: model of text/template execution for the subset the repository uses (truth, field access through pointers and string-keyed maps, "
+            "printing of strings/integers/booleans, and/or/not/eq, variables with scopes, range/else, if/else); anything else is an error and shows as a mismatch",
+            "translator harness/verifutil/tmpl.go (parse tree -> gen/Templates.v, panics on constructs outside the subset; the number of Parse calls in the "
+            "sources below internal/ must equal the number of registered template variables) and reflection of template data into Tmpl.value",
+            "add-only hook files zz_verif_tmpl.go (build tag verif, overlaid) exposing the addresses of the package-level template variables",
             "ngx/Lexer.v, ngx/Wf.v: NGINX tokenizer and well-formedness rules written from the NGINX documentation (no NGINX binary in the sandbox)",
             "gen/Directives.v: directive contexts/arities regenerated from nginx-go-crossplane v0.4.71 (translator harness/pkg/tests/framework/crossplane/...); "
             "three NGINX Plus R33 mgmt directives added by hand in ngx/Wf.v",
